@@ -380,7 +380,7 @@ theorem dropRx_length (cs : List Chan) (oc : Option Nat) : (dropRxOf cs oc).leng
 one appended scrub request for its own ID, possibly the receiver flag of its channel -/
 theorem Acct.setRes {s : St} (h : Acct s) (i : Nat) (o : Op) (ho : s.ops[i]? = some o) (hres : o.res = none)
     (hph : o.phase ≠ .allocated) (r : Res) (q' : List Nat) (oc : Option Nat)
-    (hr : (r = .ack ∧ o.mail = .ack ∧ q' = s.scrubQ) ∨ (∃ f, r = .frame f ∧ o.mail = .frame f ∧ q' = s.scrubQ) ∨
+    (hr : (r = .ack ∧ o.mail = .ack ∧ q' = s.scrubQ) ∨ (∃ f, (r = .frame f ∨ r = .decodeErr) ∧ o.mail = .frame f ∧ q' = s.scrubQ) ∨
       (r = .recvErr ∧ o.mail = .dropped ∧ q' = s.scrubQ) ∨
       (r = .timeout ∧ o.mail = .empty ∧ q' = s.scrubQ ++ [o.id] ∧ s.drv = .running) ∨
       (r = .scrubSendErr ∧ o.mail = .empty ∧ s.drv ≠ .running ∧ q' = s.scrubQ)) :
@@ -514,6 +514,7 @@ theorem Acct.setRes {s : St} (h : Acct s) (i : Nat) (o : Op) (ho : s.ops[i]? = s
       rcases hh with hh | hh
       · rcases hr with ⟨_, e2, _⟩ | ⟨f, e1, _, _⟩ | ⟨e1, _, _⟩ | ⟨e1, _, _⟩ | ⟨e1, _, _⟩
         · exact a9 j o ho (Or.inr e2)
+        · rcases e1 with e1 | e1 <;> (rw [e1] at hh; cases hh)
         all_goals (rw [e1] at hh; cases hh)
       · exact a9 j o ho (Or.inr hh)
     · exact a9 j oj h1 hh
@@ -563,7 +564,8 @@ theorem Acct.poll {s s' : St} {ob : Obs} (h : Acct s) (i : Nat)
         rw [hm] at hs
         simp only [Option.some.injEq, Prod.mk.injEq] at hs
         rw [← hs.1]
-        have := h.setRes i o ho hres hph (.frame f) s.scrubQ none (Or.inr (Or.inl ⟨f, rfl, hm, rfl⟩))
+        have := h.setRes i o ho hres hph (if f.good then .frame f else .decodeErr) s.scrubQ none
+          (Or.inr (Or.inl ⟨f, by split <;> simp, hm, rfl⟩))
         simpa [dropRxOf, hm] using this
       | dropped =>
         rw [hm] at hs
